@@ -119,6 +119,9 @@ func (x *Explorer) call(fr *Frame, b *ssa.BasicBlock, idx int, ins *ssa.Call, st
 		})
 		return true
 	}
+	if strings.Contains(fnPkgPath(callee), "/ibc-go/") {
+		st.events = append(st.events, Event{Kind: "ext", Method: shortFn(callee), Args: args, Loop: x.curTag, Pos: ins, Fn: fr.fn, Facts: len(st.facts), Seq: len(st.events)})
+	}
 	if os.Getenv("LEDGERLINT_OPAQUE") != "" && isRepoPkgPath(fnPkgPath(callee)) {
 		fmt.Fprintf(os.Stderr, "OPAQUE %s\n", callee.String())
 	}
